@@ -72,6 +72,11 @@ func GenContent(t *rapid.T, label string, o GenOpts) Content {
 		if o.ConstCap > 0 && n > o.ConstCap {
 			return Content{{Src: 107, Len: n}}
 		}
+		if rapid.Bool().Draw(t, label+"-nonzero-constant") {
+			// space padding, 8-bit PCM silence, ...: weak hash 0 for every full block of an even value
+			c := rapid.SampledFrom([]int{0x20, 0x80, 0xFE, 0x01, 0xFF}).Draw(t, label+"-constant")
+			return Content{{Src: -1 - c, Len: n}}
+		}
 		return Content{{Src: 0, Len: n}}
 	case k <= 2:
 		p := rapid.SampledFrom([]int{1, 2, 3, 7, 64, 4096, BS, BS + 1}).Draw(t, label+"-period")
